@@ -102,7 +102,7 @@ type machine struct {
 
 func layersOf(kind string) int {
 	switch kind {
-	case "mem", "kvplain", "mount0":
+	case "mem", "kvplain", "mount0", "minimal":
 		return 0
 	case "mount2", "subsub", "ossub2", "submountpt":
 		return 2
@@ -233,9 +233,10 @@ func run(t *testing.T, kind string) {
 	})
 }
 
-var kinds = []string{"mem", "kvplain", "osfs", "ossub2", "ossub3", "mount0", "mount1", "mount2", "submem", "subsub", "submountpt"}
+var kinds = []string{"minimal", "mem", "kvplain", "osfs", "ossub2", "ossub3", "mount0", "mount1", "mount2", "submem", "subsub", "submountpt"}
 
 func TestMem(t *testing.T)        { run(t, "mem") }
+func TestMinimal(t *testing.T)    { run(t, "minimal") }
 func TestKVPlain(t *testing.T)    { run(t, "kvplain") }
 func TestOSFS(t *testing.T)       { run(t, "osfs") }
 func TestOSSub2(t *testing.T)     { run(t, "ossub2") }
